@@ -330,6 +330,43 @@ pub fn run(env: &Env) -> PropRun {
         },
         &j,
     ));
+    // two intermediates: the last one collected decides (avt keeps one slot), so every pair
+    // whose last intermediate + final spells nothing implemented is inert - in particular
+    // `CSI ! / p`, `ESC # / 8`, `ESC ( / 0` (the implemented spelling followed by one more
+    // intermediate)
+    let mut dbl: Vec<String> = vec![];
+    for a in (0x20u8..=0x2f).map(|b| b as char) {
+        for b in (0x20u8..=0x2f).map(|b| b as char) {
+            for f in 0x40u8..=0x7e {
+                let fc = f as char;
+                if !(b == '!' && fc == 'p') {
+                    dbl.push(format!("\x1b[{a}{b}{fc}"));
+                }
+            }
+            for f in 0x30u8..=0x7e {
+                let fc = f as char;
+                if !((b == '#' && fc == '8') || b == '(' || b == ')') {
+                    dbl.push(format!("\x1b{a}{b}{fc}"));
+                }
+            }
+        }
+    }
+    let nd = dbl.len();
+    let dstates = ["abc\r\ndef\x1b[2;2H\x1b[1;31m", "\x1b[?6h\x1b[2;3r\x1b[4h\x1b[?7l\x1b[3g\x1b[?1h"];
+    parts.push(run_part(
+        env,
+        "enum-double-intermediates",
+        nd * dstates.len(),
+        true,
+        "CSI and ESC with every ordered pair of intermediates 0x20-0x2F and every final (0x40-0x7E / 0x30-0x7E), except pairs whose last intermediate and final spell an implemented function - each from 2 prior states, probe battery on every item",
+        &|i| {
+            let mut c = Case::new(7, 4, None).feed(dstates[i / nd]);
+            c.tail = vec![dbl[i % nd].clone()];
+            c.nums = vec![1];
+            Some(c)
+        },
+        &j,
+    ));
     parts.push(random_part(env, "random-items", env.tier.scale(150_000, 30), &gen_case, &j));
     parts.push(random_part(env, "long-payloads", env.tier.scale(60_000, 30), &gen_long_payload, &j));
     PropRun {
